@@ -43,7 +43,9 @@ type c11Op struct {
 	M   string            `json:"m,omitempty"` // mode (issue: format; verifyB: NET mode to set for the credential's list first; race: outer op)
 	A   string            `json:"a,omitempty"` // verifyB: age the verifier's record first ("old" | "expired"); race: inner op
 	L   bool              `json:"l,omitempty"` // revoke / verify: take the most recently issued credential instead of C
-	S   bool              `json:"s,omitempty"` // jsonmut: mutate inside credentialSubject only
+	S   bool              `json:"s,omitempty"` // jsonmut: mutate inside credentialSubject only; issueMulti: one-element array form
+	B   int               `json:"b,omitempty"` // with L: take the credential B places before the most recent one
+	E   []int             `json:"e,omitempty"` // issueMulti: status entries; n > 0 = the slot of the n-th last credential, -n = that slot under purpose "suspension", 0 = an entry of another status type
 	Mut *jsonmut.Mutation `json:"mut,omitempty"`
 }
 
@@ -62,7 +64,7 @@ func c11Gen(t *rapid.T) c11Case {
 		c.Ops = append(c.Ops, c11Op{K: "issue", I: rapid.IntRange(0, c.Issuers-1).Draw(t, "i"), M: rapid.SampledFrom([]string{"ldp", "ldp", "jwt"}).Draw(t, "fmt")})
 	}
 	kinds := []string{"issue", "issue", "issue", "entry", "jump", "revoke", "revoke", "revoke", "revoke", "serve", "serve",
-		"verifyA", "verifyA", "verifyB", "verifyB", "verifyB", "verifyB", "verifyB", "verifyB", "ageIssuer", "issueForged", "sc-forged-refresh", "sc-rollover", "fillpages", "race", "race", "race", "fault", "sc-fault-revoke", "sc-fault-revoke", "sc-external", "sc-external", "sc-external", "extRevoke"}
+		"verifyA", "verifyA", "verifyB", "verifyB", "verifyB", "verifyB", "verifyB", "verifyB", "ageIssuer", "issueForged", "sc-forged-refresh", "sc-rollover", "fillpages", "race", "race", "race", "fault", "sc-fault-revoke", "sc-fault-revoke", "sc-external", "sc-external", "sc-external", "extRevoke", "issueMulti", "sc-multi", "sc-multi", "sc-multi", "sc-multi"}
 	forged := []string{"http500", "neterr", "notjson", "unsigned", "zerobits", "zerobits", "allbits", "wrongsubject", "jsonmut"}
 	mut := func(t *rapid.T, op *c11Op) {
 		if op.M == "jsonmut" {
@@ -96,6 +98,36 @@ func c11Gen(t *rapid.T) c11Case {
 				ops = append(ops, c11Op{K: "verifyB", L: true, M: "honest"})
 			}
 			return append(ops, c11Op{K: "extRevoke", L: true}, c11Op{K: "verifyB", L: true, M: "honest", A: "old"})
+		case "sc-multi":
+			// a credential with 2-3 status entries naming the slots of fresh credentials on the same list, on different
+			// pages of one issuer, on lists of different issuers or on an external list; one of the named slots is
+			// revoked; both nodes look at it
+			n := rapid.SampledFrom([]int{1, 2, 2, 2, 3, 3}).Draw(t, "entries")
+			var ops []c11Op
+			shape := rapid.SampledFrom([]string{"same-list", "pages", "issuers", "issuers", "external"}).Draw(t, "shape")
+			i0 := rapid.IntRange(0, c.Issuers-1).Draw(t, "i")
+			for j := 0; j < n; j++ {
+				switch {
+				case shape == "issuers":
+					ops = append(ops, c11Op{K: "issue", I: (i0 + j) % c.Issuers, M: "ldp"})
+				case shape == "pages" && j > 0:
+					ops = append(ops, c11Op{K: "jump", I: i0, N: 0}, c11Op{K: "entry", I: i0, N: 1}, c11Op{K: "issue", I: i0, M: "ldp"})
+				case shape == "external" && j == n-1:
+					ops = append(ops, c11Op{K: "extIssue", N: rapid.SampledFrom([]int{0, 2, 4}).Draw(t, "size"), C: uint32(rapid.SampledFrom([]int{0, 1, 6}).Draw(t, "index"))})
+				default:
+					ops = append(ops, c11Op{K: "issue", I: i0, M: "ldp"})
+				}
+			}
+			e := rapid.Permutation([]int{1, 2, 3}[:n]).Draw(t, "order")
+			if rapid.IntRange(0, 3).Draw(t, "extra") == 0 {
+				e = append([]int{rapid.SampledFrom([]int{0, -1, -2}).Draw(t, "ignored")}, e...)
+			}
+			victim := rapid.IntRange(1, n).Draw(t, "revoked") // which of the fresh credentials gets revoked
+			rev := c11Op{K: "revoke", L: true, B: victim}
+			if shape == "external" && victim == 1 {
+				rev = c11Op{K: "extRevoke", C: 0, L: true, B: 1}
+			}
+			return append(ops, c11Op{K: "issueMulti", I: i0, E: e, S: rapid.Bool().Draw(t, "arrayForm")}, c11Op{K: "verifyB", L: true}, rev, c11Op{K: "verifyA", L: true}, c11Op{K: "verifyB", L: true})
 		case "sc-rollover":
 			// fill the issuer's page, issue across the page end, revoke the newest credential and look at it from afar
 			i := rapid.IntRange(0, c.Issuers-1).Draw(t, "i")
@@ -118,6 +150,10 @@ func c11Gen(t *rapid.T) c11Case {
 			op.N = rapid.SampledFrom([]int{1, 2, 3, 9, 10, 11}).Draw(t, "pages") // page numbers with two digits included
 		case "extRevoke":
 			op.C = rapid.Uint32().Draw(t, "c")
+		case "issueMulti":
+			op.I = rapid.IntRange(0, c.Issuers-1).Draw(t, "i")
+			op.E = rapid.SliceOfN(rapid.IntRange(-2, 4), 1, 3).Draw(t, "entries")
+			op.S = rapid.Bool().Draw(t, "arrayForm")
 		case "fault":
 			op.N = rapid.IntRange(0, 2).Draw(t, "skip")          // Sign calls of the node that still pass
 			op.C = uint32(rapid.IntRange(1, 3).Draw(t, "count")) // Sign calls that fail after that
@@ -167,6 +203,31 @@ type c11Cred struct {
 	idx       int
 	revocable bool // issued by the node itself with a status entry (the node can revoke it)
 	ext       bool // credential of the external issuer (status list built by the harness)
+	multi     bool // harness-signed credential with its own list of status entries (entries)
+	entries   []c11Ref
+}
+
+// c11Ref is one credentialStatus entry of a multi-entry credential.
+type c11Ref struct {
+	url     string
+	idx     int
+	purpose string
+	other   bool // not a StatusList2021Entry
+	ext     bool
+}
+
+// revoked: the statement's rule for a credential with several status entries: revoked <=> for some revocation entry the
+// bit at the entry's index is set in the list that entry names. bitsOf yields what the judging node holds for a list.
+func (c *c11Cred) revokedBy(bitsOf func(url string) []byte) bool {
+	for _, e := range c.entries {
+		if e.other || e.purpose != revocation.StatusPurposeRevocation {
+			continue
+		}
+		if c11Bit(bitsOf(e.url), e.idx) {
+			return true
+		}
+	}
+	return false
 }
 
 type c11List struct {
@@ -629,7 +690,10 @@ func (r *c11Run) pick(op c11Op) *c11Cred {
 		if len(r.creds) == 0 {
 			return nil
 		}
-		return r.creds[len(r.creds)-1]
+		if op.B < 0 || op.B >= len(r.creds) {
+			return nil
+		}
+		return r.creds[len(r.creds)-1-op.B]
 	}
 	return r.pickCred(op.C, nil)
 }
@@ -876,6 +940,9 @@ func (r *c11Run) opVerifyA(op c11Op) bool {
 	if c == nil {
 		return false
 	}
+	if c.multi {
+		return r.verifyAMulti(c)
+	}
 	if c.ext {
 		// the issuer node has no route to the external issuer's list in this fixture
 		r.x.Class("verifyA:skipped-external")
@@ -909,6 +976,9 @@ func (r *c11Run) opVerifyB(op c11Op) bool {
 	c := r.pick(op)
 	if c == nil {
 		return false
+	}
+	if c.multi {
+		return r.verifyBMulti(c)
 	}
 	if c.hasStatus {
 		if op.M != "" {
@@ -1170,8 +1240,8 @@ func (r *c11Run) opExtIssue(op c11Op) {
 func (r *c11Run) opExtRevoke(op c11Op) bool {
 	var c *c11Cred
 	if op.L {
-		if len(r.creds) > 0 && r.creds[len(r.creds)-1].ext {
-			c = r.creds[len(r.creds)-1]
+		if p := r.pick(op); p != nil && p.ext {
+			c = p
 		}
 	} else {
 		c = r.pickCred(op.C, func(c *c11Cred) bool { return c.ext })
@@ -1186,6 +1256,162 @@ func (r *c11Run) opExtRevoke(op c11Op) bool {
 	}
 	l.bits[c.idx] = true
 	r.x.Class("ext:revoke")
+	return true
+}
+
+// opIssueMulti: issuer k signs a credential with 1-3 credentialStatus entries chosen by the harness (see c11Op.E): slots
+// of recently issued credentials (same list, other pages, other issuers, the external issuer), optionally under a
+// non-revocation purpose or as an entry of another status type, as object / one-element array / array.
+func (r *c11Run) opIssueMulti(op c11Op) {
+	k := op.I % r.c.Issuers
+	var pool []*c11Cred // single-entry credentials whose slot exists in a list of regular size
+	for _, c := range r.creds {
+		if c.multi || !c.hasStatus || r.anyList(c.url) == nil {
+			continue
+		}
+		if c.ext && (r.ext[c.url].size < (revocation.C11MaxBitstringIndex+1)/8 || c.idx >= r.ext[c.url].size*8) {
+			continue
+		}
+		pool = append(pool, c)
+	}
+	var statuses []any
+	var refs []c11Ref
+	for _, e := range op.E {
+		if len(refs) >= 3 {
+			break
+		}
+		if e == 0 {
+			id := fmt.Sprintf("https://status.example/other/%d", len(refs))
+			statuses = append(statuses, map[string]any{"id": id, "type": "CredentialStatusList2017"})
+			refs = append(refs, c11Ref{url: id, other: true})
+			continue
+		}
+		n, purpose := e, revocation.StatusPurposeRevocation
+		if n < 0 {
+			n, purpose = -n, "suspension"
+		}
+		if n > len(pool) {
+			continue
+		}
+		src := pool[len(pool)-n]
+		se := revocation.StatusList2021Entry{ID: fmt.Sprintf("%s#%d-%s", src.url, src.idx, purpose), Type: revocation.StatusList2021EntryType,
+			StatusPurpose: purpose, StatusListIndex: strconv.Itoa(src.idx), StatusListCredential: src.url}
+		statuses = append(statuses, se)
+		refs = append(refs, c11Ref{url: src.url, idx: src.idx, purpose: purpose, ext: src.ext})
+	}
+	nrev := 0
+	lists := map[string]bool{}
+	for _, e := range refs {
+		if !e.other && e.purpose == revocation.StatusPurposeRevocation {
+			nrev++
+			lists[e.url] = true
+		}
+	}
+	if nrev == 0 {
+		return
+	}
+	r.serial++
+	cred, err := r.f.signVCStatuses(k, statuses, r.serial, op.S)
+	r.x.NoErr(err, "sign multi-status credential")
+	r.creds = append(r.creds, &c11Cred{vc: *cred, issuer: k, hasStatus: true, multi: true, entries: refs, url: refs[0].url, idx: refs[0].idx})
+	form := "array"
+	if len(statuses) == 1 && !op.S {
+		form = "object"
+	}
+	r.x.Classf("multi:entries=%d:revocation-entries=%d:lists=%d:form=%s", len(refs), nrev, len(lists), form)
+	for _, e := range refs {
+		switch {
+		case e.other:
+			r.x.Class("multi:with-other-status-type")
+		case e.purpose != revocation.StatusPurposeRevocation:
+			r.x.Class("multi:with-suspension-entry")
+		case e.ext:
+			r.x.Class("multi:with-external-list")
+		}
+	}
+}
+
+func (r *c11Run) verifyAMulti(c *c11Cred) bool {
+	for _, e := range c.entries {
+		if e.ext && !e.other && e.purpose == revocation.StatusPurposeRevocation {
+			r.x.Class("verifyA:skipped-external")
+			return false
+		}
+	}
+	err := r.f.verA.Verify(c.vc, true, true, nil)
+	want := c.revokedBy(r.truthBits)
+	if got := errors.Is(err, types.ErrRevoked); got != want {
+		r.x.Violate(fmt.Sprintf("verify-issuer-node:multi-entry:want-revoked=%v", want), "credential %s with entries %+v: Verify = %v", c.vc.ID, c.entries, err)
+		return true
+	}
+	if !want {
+		r.expectNoError(err, "verifyA(multi)")
+	}
+	r.x.Classf("verifyA:multi:revoked=%v", want)
+	return true
+}
+
+// verifyBMulti: the remote verifier judges a multi-entry credential. To keep the expectation free of the soft-fail rules
+// (an unavailable or refused list ends the check of the remaining entries), every list the credential names under the
+// revocation purpose is served honestly and is due for refresh, and signer faults are off.
+func (r *c11Run) verifyBMulti(c *c11Cred) bool {
+	x, f := r.x, r.f
+	f.setFault(0, 0)
+	urls := map[string]bool{}
+	for _, e := range c.entries {
+		if !e.other && e.purpose == revocation.StatusPurposeRevocation && !urls[e.url] {
+			urls[e.url] = true
+			r.modes[e.url] = c11Op{K: "verifyB", M: "honest"}
+			r.ageB(e.url, "old")
+			delete(r.served, e.url)
+		}
+	}
+	f.net.take()
+	err := f.verB.Verify(c.vc, true, true, nil)
+	for _, u := range f.net.take() {
+		if !urls[u] {
+			x.Violate("verify-remote:downloaded-other-list", "credential names %v under the revocation purpose, verifier fetched %s", urls, u)
+			return true
+		}
+	}
+	for u := range urls {
+		sv := r.served[u]
+		if sv == nil {
+			continue // not reached (an earlier entry already decided) or still fresh
+		}
+		row, rerr := c11LoadRow(f.dbB, u)
+		x.NoErr(rerr, "load verifier row")
+		nc := r.cacheFromRow(row)
+		if sv.mode == "honest" {
+			b, derr := []byte(nil), error(nil)
+			if row != nil {
+				b, derr = c11DecodeList(row.Bitstring)
+			}
+			if row == nil || derr != nil || string(b) != string(sv.view.Bits) || row.StatusPurpose != sv.view.Purpose {
+				x.Violate("honest-list-not-taken", "verifier record for %s does not hold the list that was served", u)
+				return true
+			}
+		}
+		if nc == nil {
+			delete(r.cache, u)
+		} else {
+			r.cache[u] = nc
+		}
+	}
+	want := c.revokedBy(func(u string) []byte {
+		if cc := r.cache[u]; cc != nil && cc.purpose == revocation.StatusPurposeRevocation {
+			return cc.bits
+		}
+		return nil
+	})
+	if got := errors.Is(err, types.ErrRevoked); got != want {
+		x.Violate(fmt.Sprintf("verify-remote:multi-entry:want-revoked=%v", want), "credential %s with entries %+v: Verify = %v", c.vc.ID, c.entries, err)
+		return true
+	}
+	if !want {
+		r.expectNoError(err, "verifyB(multi)")
+	}
+	x.Classf("verifyB:multi:revoked=%v", want)
 	return true
 }
 
@@ -1241,6 +1467,8 @@ func c11RunCase(t *testing.T) func(x *h.Ctx, c c11Case) {
 				r.opJump(op)
 			case "fillpages":
 				r.opFillPages(op)
+			case "issueMulti":
+				r.opIssueMulti(op)
 			case "extIssue":
 				r.opExtIssue(op)
 			case "extRevoke":
